@@ -660,4 +660,29 @@ theorem sendToken_tied (token : Int32) (offset n : Int) (file : Bytes) (out : Li
     · have : (token != (-2 : Int32)) = true := by simpa using ht
       simp [ht, this, emitChunks]
 
+
+/-! ## the early flush of a long unmatched run (match.go) -/
+
+/-- the condition under which `hashSearch` sends the pending run before any match -/
+theorem flushCond_tied (backup end_ offset : Int) (bl : Int32) :
+    Gen.Pure.flushCond backup bl end_ offset false =
+      decide (backup ≥ bl.toInt + (Delta.chunkSize : Int) ∧ end_ - offset > (Delta.chunkSize : Int)) := by
+  have hcs : (Delta.chunkSize : Int) = 262144 := by decide
+  rw [hcs]
+  unfold Gen.Pure.flushCond
+  by_cases a : backup ≥ bl.toInt + 262144 <;> by_cases b : end_ - offset > 262144 <;> simp [a, b]
+
+/-- **the flush never reaches back over data that was already sent**: it asks `matched` to send
+everything up to `offset - blockLength`; since it only fires when the pending run (`backup = offset −
+lastMatch`) is at least a block plus a chunk long, that point lies at least `chunkSize` *after*
+`lastMatch` — for every block length a header may carry (up to 2²⁹, far above `chunkSize`). With a
+threshold that ignores the block length the point would lie before `lastMatch` for large blocks, and
+`matched` would re-send and re-hash bytes a block reference already covered. -/
+theorem flush_target_after_last_match (offset lastMatch end_ : Int) (bl : Int32)
+    (h : Gen.Pure.flushCond (offset - lastMatch) bl end_ offset false = true) :
+    lastMatch + (Delta.chunkSize : Int) ≤ offset - bl.toInt := by
+  rw [flushCond_tied] at h
+  have := of_decide_eq_true h
+  omega
+
 end PureTie
